@@ -83,7 +83,7 @@ LITERAL = {",", ":", "::", "=", "==", "(", ")", ")+", "-(", "@", "#", "@#", "%",
            ".align", ".repeat", ".link", ".end", ".once", ".extern", ".include", "insert_file", ".error", ".ident"}
 CARET_DELIMS = ["/", "|", "?", "$", ":"]
 CHARSET = [" ", "\t", "\n", ";", ",", ":", ".", "=", "(", ")", "<", ">", "{", "}", "^", "@", "#", "%", "'", '"', "/", "\\",
-           "+", "-", "*", "0", "8", "9", "a", "r", "α", "\u0130", "\u212a", "\u0131", "\u017f"]
+           "+", "-", "*", "0", "8", "9", "a", "r", "α", "\u0130", "\u212a", "\u0131", "\u017f", "\u0668", "\u00b2"]
 
 # files that '.include' / 'insert_file' may name; materialised in a scratch directory by asm(fs=...)
 MAIN = "t.mac"
@@ -151,6 +151,7 @@ FAULTS = {
     "caret-r-case-folding-character": [".word ^R\u0130", ".word ^Ra\u212a"],
     "rad50-case-folding-character": [".rad50 /a\u0131/", ".rad50 /\ufb06/"],
     "mnemonic-case-folding-character": ["\u017fob r0, ."],
+    "non-ascii-digit": [".word \u0668", ".byte 1\u0663, \u00b2"],
     # diagnostics with two spans in two files, the other span far down in a file longer than the text itself
     "cross-file-duplicate-export": ['.include "long.mac"', "lx1:: nop"],
     "cross-file-duplicate-constant": ["lk1 == 7", '.include "long.mac"'],
